@@ -1656,13 +1656,14 @@ def replace_for_loops_with_dict_comp(source: str) -> str:
 
     transaction = 0
     root = core.parse(source)
-    for (_, target, value), (n2,) in core.walk_sequence(root, assign_template, ast.For):
+    # A loop with an else clause is left alone: the clause has no place in a comprehension.
+    for (_, target, value), (n2,) in core.walk_sequence(root, assign_template, ast.For(orelse=[])):
         body_node = n2
         generators = []
         transaction += 1
 
         while core.match_template(
-            body_node, (ast.For(body=[object]), ast.If(body=[object], orelse=[]))
+            body_node, (ast.For(body=[object], orelse=[]), ast.If(body=[object], orelse=[]))
         ):
             if isinstance(body_node, ast.If):
                 generators[-1].ifs.append(body_node.test)
@@ -1709,7 +1710,8 @@ def replace_for_loops_with_set_list_comp(source: str) -> str:
     assign_template = ast.Assign(
         value=core.Wildcard("value", object), targets=[ast.Name(id=core.Wildcard("target", str))]
     )
-    for_template = ast.For(body=[object])
+    # A loop with an else clause is left alone: the clause has no place in a comprehension.
+    for_template = ast.For(body=[object], orelse=[])
     if_template = ast.If(body=[object], orelse=[])
 
     set_init_template = ast.Call(func=ast.Name(id="set"), args=[], keywords=[])
@@ -1825,7 +1827,8 @@ def replace_nested_loops_with_set_list_comp(source: str) -> str:
     )
 
     transaction = 1
-    for node in core.walk(root, (ast.For, ast.AsyncFor)):
+    # A loop with an else clause is left alone: the clause has no place in a comprehension.
+    for node in core.walk(root, (ast.For(orelse=[]), ast.AsyncFor(orelse=[]))):
         outermost_for = node
         generators = [
             ast.comprehension(
